@@ -24,19 +24,6 @@ example : closed [⟨"A", [], true, ["x", "y"], false, false, true, ["x", "y"], 
     closed [⟨"B", [], true, ["x"], false, false, true, ["x"], false⟩,
             ⟨"A", ["B"], true, ["y"], true, false, true, ["z"], true⟩] = false := by decide
 
-theorem get_saveRec (ks : List String) (attrs : String → Nat) (k : String) (hk : k ∈ ks) :
-    Rec.get? (ks.map (fun k => (k, attrs k))) k = some (attrs k) := by
-  induction ks with
-  | nil => cases hk
-  | cons a ks ih =>
-    simp only [List.map_cons, Rec.get?]
-    by_cases e : a = k
-    · subst e; simp
-    · rw [if_neg e]
-      rcases List.mem_cons.mp hk with h | h
-      · exact absurd h.symm e
-      · exact ih h
-
 /-- **What closedness buys** (`load_save_entity` for the record model): for every class of a closed table, loading what
 was saved never raises `KeyError`, and every key `_load` reads comes back with the value the entity had. -/
 theorem load_save_entity (cs : List PClass) (hc : closed cs = true) (c : PClass) (hm : c ∈ cs) (attrs : String → Nat) :
